@@ -207,7 +207,7 @@ def _assigned_names(stmts):
 def _bind(helper, call, skip_self):
     """parameter -> argument mapping (Fail when not expressible)."""
     a = helper.args
-    if a.vararg or a.kwarg or a.kwonlyargs or getattr(a, 'posonlyargs', []):
+    if a.kwarg or a.kwonlyargs or getattr(a, 'posonlyargs', []):
         raise _Fail('unsupported helper signature')
     params = [p.arg for p in a.args]
     if skip_self:
@@ -219,7 +219,11 @@ def _bind(helper, call, skip_self):
     for p, arg in zip(params, call.args):
         m[p] = arg
     if len(call.args) > len(params):
-        raise _Fail('too many arguments')
+        if a.vararg is None:
+            raise _Fail('too many arguments')
+    if a.vararg is not None:
+        # `*rest` receives the surplus positional arguments as a tuple
+        m[a.vararg.arg] = ast.Tuple(elts=list(call.args[len(params):]), ctx=ast.Load())
     for k in call.keywords:
         if k.arg not in params or k.arg in m:
             raise _Fail('bad keyword')
